@@ -74,6 +74,12 @@ def alphabet(ref, task):
                 if v == "#DEL" and isinstance(model.get_at(disk, pos[:-1]), list) and False:
                     continue
                 ev.append(("ext", 0, pos, v))
+            # the same content with type-twins (0 -> False, 0.0 -> -0.0, 1 -> True ...): == to what the object has in
+            # memory, yet a different JSON value that every read must show
+            cur = model.get_at(disk, pos)
+            tw = model.twin(cur)
+            if not model.exact_eq(tw, cur):
+                ev.append(("ext", 0, pos, tw))
     for h in ref.attached_handles():
         ev += reads_for(ref, h)
         # a write through each handle: must persist
